@@ -278,3 +278,26 @@ def run(chk):
                 return "candidate times in [tmin, tmax], candidate coordinate j in [min_j, max_j]"
             chk.run("C17.R1", f"{RAR}:_rar_step_init.rar_step_true (candidate domain)", {"generator": kind, "dim": d}, go_dom,
                     construct=f"candidate domain[{kind},dim {d}]")
+
+    # ---------------- R8 draws interleaved with refinement steps serve the active points of the store's own family: the epoch
+    # length of every store is start + J * selected of ITS family (the one-draw step decided under C09, on refined generators)
+    chk.rule("C17.R8", "a draw from a refined generator: epoch length start + J * selected of the store's own family, weighted "
+                       "permutation with the store's own mask", floor=4)
+    from .C09 import check_draw
+    from ..genenv import GenEnv, MOD as DG_MOD
+    G8 = GenEnv(chk.repo)
+    chk.files.update(G8.w.files)
+    cases8 = [
+        ("DataGeneratorODE.temporal_batch", lambda: G8.ode(rar=True), 'temporal_batch', ('key', 'times', 'curr_time_idx'), K('bt'),
+         K('nt_start') + J * K('sel_t'), Sym('p_times'), (K('bt'),)),
+        ("CubicMeshPDEStatio.inside_batch", lambda: G8.statio(2, rar=True), 'inside_batch', ('key', 'omega', 'curr_omega_idx'), K('bx'),
+         K('n_start') + J * K('sel_x'), Sym('p_omega'), (K('bx'), 2)),
+        ("CubicMeshPDENonStatio.temporal_batch", lambda: G8.nonstatio(2, rar=True), 'temporal_batch', ('key', 'times', 'curr_time_idx'),
+         K('bt'), K('nt_start') + J * K('sel_t'), Sym('p_times'), (K('bt'),)),
+        ("CubicMeshPDENonStatio.inside_batch", lambda: G8.nonstatio(2, rar=True), 'inside_batch', ('key', 'omega', 'curr_omega_idx'),
+         K('bx'), K('n_start') + J * K('sel_x'), Sym('p_omega'), (K('bx'), 2)),
+    ]
+    for name, mk, meth, fields, b, n_eff, p_, sizes in cases8:
+        chk.run("C17.R8", f"{DG_MOD}:{name}", {"refined": True},
+                (lambda mk=mk, meth=meth, fields=fields, b=b, n_eff=n_eff, p_=p_, sizes=sizes, name=name:
+                 check_draw(mk(), meth, fields, b, n_eff, p_, sizes, name)), construct=f"{name} on a refined generator")
